@@ -888,7 +888,71 @@ def block_maximum(db, ctx):
     r7_generic(db, ctx)
 
 
+def r78(db, ctx):
+    ctx.rule('R7.8', 'plain score vectors: Scores::max is the maximum (natural order) over every element of self.data and Scores::argmax the index the same '
+                     'reduction attributes to it; both None exactly on an empty vector')
+    from lm import reduce as RD
+    n = 0
+    n_undecided = 0
+    for name in ('argmax', 'max'):
+        fs = [f for f in db.fns.values() if f.path.startswith('lightmotif::scores::Scores::') and f.name == name and f.kind == 'AssocFn' and not f.promoted_of]
+        if len(fs) != 1:
+            ctx.fail('R7.8', f'lightmotif::scores::Scores::{name}', 'anchor', f'reason=anchor-missing: {len(fs)} bodies')
+            continue
+        f = fs[0]
+        R = X.Rec(f)
+        C = RD.RCanon(db, f, R)
+        e = common.return_expr_single_path_allow(f)
+        e = norm(e) if e is not None else None
+        data = ('fld', ('p', 1), 'data')
+        inner, outer = None, None
+        if e is not None and e[0] == 'call' and e[1].endswith(('Option::map', 'Option::cloned', 'Option::copied')) and e[2]:
+            inner, outer = e[2][0], e
+        elif e is not None:
+            inner = e
+        r = RD.of_expr(C, inner) if inner is not None else None
+        probs = []
+        if r is None or r.get('op') not in ('max_by', 'max'):
+            # a hand-written running-best loop: not decided by this rule (the striped reductions, which the scanner and the binding use, are
+            # decided by R7.1-R7.4 in every spelling; this clause covers the plain-vector convenience methods in their pipeline spelling only)
+            if any((f.callee_short(t_) or '').rsplit('::', 1)[-1] in ('max_by', 'max', 'max_by_key', 'min_by', 'min', 'fold', 'reduce', 'last') for _, t_ in f.calls()):
+                ctx.fail('R7.8', f, f'Scores::{name}', f'reason=unrecognised-shape: {X.show(e, 120) if e else None} is not a maximum reduction over every element of self.data')
+                continue
+            ctx.note(f'R7.8: Scores::{name} is not written as a reduction pipeline; its loop form is not decided')
+            n_undecided += 1
+            continue
+        L = r['L']
+        cell = ('at', data, ('pos', L))
+        if r['extents'] != [('len', data)]:
+            probs.append(f'the reduction runs over {r["extents"]}, not over every element of self.data')
+        term = C.canon(r['term'])
+        if name == 'max':
+            if term != cell:
+                probs.append(f'the reduced values are {X.show(term, 80)}, not the elements')
+        else:
+            if not (term[0] == 'agg' and len(term[2]) == 2 and term[2][0] == ('pos', L) and term[2][1] == cell):
+                probs.append(f'the reduced items are {X.show(term, 80)}, not (index, element) pairs')
+            # the index is what is returned
+            out = RD.apply_fn(db, outer[2][1], [('sym', 't')]) if outer is not None and outer[1].endswith('Option::map') and len(outer[2]) == 2 else None
+            if out is None or norm(out) != ('fld', ('sym', 't'), '0'):
+                probs.append('the result is not the index of the winning pair')
+        if r.get('op') == 'max_by':
+            x_, y_ = ('sym', 'x'), ('sym', 'y')
+            cmp_ = RD.apply_fn(db, r['cmp'], [x_, y_])
+            sel = (lambda v: ('fld', v, '1')) if name == 'argmax' else (lambda v: v)
+            nat = cmp_ is not None and m(('call~', ('Option::unwrap', 'Option::expect'), (('call~', '::partial_cmp', (sel(x_), sel(y_))),)), norm(cmp_)) is not None
+            if not nat:
+                probs.append('the comparator is not the natural order of the scores (x.partial_cmp(y))')
+        if probs:
+            ctx.fail('R7.8', f, f'Scores::{name}', '; '.join(probs))
+        else:
+            n += 1
+            ctx.ok('R7.8', f, f'Scores::{name} = max over all of self.data under the natural order', ['None iff empty (max_by)'])
+    ctx.floor('R7.8', n + n_undecided, 2, 'plain score vector reductions')
+
+
 def run(db, ctx):
+    r78(db, ctx)
     ctx.rule('R7.1', 'reduction identity: every max / argmax accumulator starts at a lower bound of the element domain (0 for u8, -1 for zero-extended i16, -inf or the first row for f32)')
     ctx.rule('R7.2', 'lane -> column agreement: element t of the spilled index array holds the candidate row of column t, the column the scalar epilogue attributes to it')
     check_max(db, ctx, AVX2 + 'max_f32_avx2', 4, 'max_f32')
